@@ -10,22 +10,68 @@ _U = TOK + ["src/BodyPipe.cc"] + _JOBS + _HDR + _REQ + _REP + ["src/http.cc", "s
             "src/comm/Connection.cc", "src/base/JobWait.cc", "src/http/one/TeChunkedParser.cc", "src/http/one/Tokenizer.cc", "src/http/Stream.cc"]
 _e = lambda n, b, r, **kw: dict(name=n, bounds=b, reach=list(r), **dict(dict(sample_every=197, max_samples=3), **kw))
 _L = ("whole", "bodiless", "premature-eof", "read-error", "in-progress", "pooled")
+_EX = ("reply status symbolic 200..599, Connection header %s, request keep-alive and request-completely-sent flags symbolic; 0..all origin bytes arrive together with the header block, then "
+       "%d network events from {segment of symbolic length%s, EOF, read error, EAGAIN}. After every event: stored bytes = the origin's body bytes received so far, in order (store writes contiguous); "
+       "marked 'stored whole' only if the framing says complete; complete => whole and no failure; EOF before the end => failure reported, never whole; read error => failure; connection "
+       "pooled only after a complete message that ended exactly where reading stopped, with keep-alive on both sides and the request completely sent; completion ends the job and closes or pools the connection")
 SPEC = dict(
     harness="C01_relay.cc", units=_U, unit_flags={"compat/xstring.cc": ["-Dxstrdup=vf_unused_squid_xstrdup"]},
     scope="kernel",
-    scope_note="kernel decided: ...; gap: ...",
+    scope_note="kernel decided: (A) from the parsed reply header on, HttpStateData::readReply/processReply/processReplyBody/writeReplyBody/decodeAndWriteReplyBody (real TeChunkedParser)/"
+               "truncateVirginBody/persistentConnStatus/statusIfComplete/markPrematureReplyBodyEofFailure and Client::addVirginReplyBody/storeReplyBody/serverComplete/completeForwarding, "
+               "driven by the real AsyncCallQueue under every bounded schedule of origin write segments, EOF, read errors and EAGAIN, hand StoreEntry::write() exactly the origin's body bytes "
+               "in order (decoded for chunked, never beyond a declared Content-Length) and report the reply as stored whole (FwdState::markStoredReplyAsWhole) only when its framing says the body "
+               "is complete -- declared length reached, last-chunk received, or EOF of a close-delimited body; a body cut short by EOF is reported through FwdState::fail() and never as whole "
+               "(FwdState then truncates the entry, which is what makes the client-side close instead of sending the full length / last-chunk); the server connection is reused only after a "
+               "message that ended exactly at its framing. (B) persistentConnStatus()/statusIfComplete() answer 'complete' exactly when EOF, closure, the last-chunk, a bodiless reply or the "
+               "declared length has been seen, for every combination of their inputs. (C) Http::Stream::packChunk() output for any sequence of body buffers plus the last-chunk is decoded "
+               "by a strict reference decoder and by the real TeChunkedParser to exactly the buffers' bytes, and is incomplete without the last-chunk. "
+               "gap: reply header parsing and the header hooks (C23, C25, C26, C11), FwdState::complete()/StoreEntry truncation flags, the store and store_client::copy, clientReplyContext, "
+               "Http::Stream::sendBody/sendStartOfMessage and Http1::Server::handleReply (when the last-chunk is requested), comm; ICAP/eCAP adaptation of the reply; body sizes beyond a few bytes "
+               "(36 for one chunk), in particular every internal buffer/page boundary",
     entries=dict(
         quick=[
-            _e("c01_body_length", "x", _L),
-            _e("c01_body_chunked", "x", _L),
-            _e("c01_body_eof", "x", ("whole", "bodiless", "read-error", "in-progress")),
+            _e("c01_body_length", "Content-Length framing: origin sends 0..3 symbolic body bytes + 1 more byte and declares that many, one fewer or one more; GET or HEAD; "
+               + _EX % ("none / close / keep-alive", 3, " 1..rest"), _L),
+            _e("c01_body_chunked", "chunked framing: body of 0..2 symbolic bytes in 1..2 chunks (every cut; reference encoder, no extensions/trailers) + 1 more byte; GET; "
+               + _EX % ("none / close", 3, ": 1 or 2 bytes, or up to the end of a chunk's data / a chunk / the last-chunk line / the body"), _L, sample_every=997),
+            _e("c01_body_eof", "close-delimited framing (no Content-Length, not chunked): 0..3 symbolic body bytes + 1 more byte; GET; " + _EX % ("none / close", 3, " 1..rest"),
+               ("whole", "bodiless", "read-error", "in-progress", "pooled")),
+            _e("c01_status", "persistentConnStatus() on a live HttpStateData with every input symbolic: eof, lastChunk, flags.chunked/keepalive/forceClose/request_sent, payloadSeen and payloadTruncated "
+               "(any 63-bit values, truncated <= seen), reply version 0.9/1.0/1.1, status 100..599, Content-Length -1 or any 63-bit value (absent when chunked), reply keep_alive, Connection: close "
+               "present or not, method GET/HEAD, server connection open or closed", ("persistent", "complete-close", "incomplete")),
+            _e("c01_chunk_small", "0..3 body buffers of 1..3 symbolic bytes through packChunk(), with or without the final empty buffer (last-chunk); strict reference decoder and real TeChunkedParser", ("complete", "open"), sample_every=7),
+            _e("c01_chunk_hex", "one body buffer of 9, 10, 15, 16 or 31 symbolic bytes (chunk-size 9, A, F, 10, 1F), optionally followed by one of 2 bytes, with or without the last-chunk", ("complete", "open"), sample_every=3),
         ],
         thorough=[
-            _e("c01_body_length", "x", _L),
-            _e("c01_body_chunked", "x", _L),
-            _e("c01_body_eof", "x", ("whole", "bodiless", "read-error", "in-progress")),
+            _e("c01_body_length", "as quick with 0..4 body bytes and 4 events", _L, sample_every=1997),
+            _e("c01_body_chunked", "as quick with 0..3 body bytes and 4 events", _L, sample_every=9973),
+            _e("c01_body_eof", "as quick with 0..4 body bytes and 4 events", ("whole", "bodiless", "read-error", "in-progress", "pooled"), sample_every=997),
+            _e("c01_status", "as quick", ("persistent", "complete-close", "incomplete")),
+            _e("c01_chunk_small", "as quick with buffers of 1..4 bytes", ("complete", "open"), sample_every=37),
+            _e("c01_chunk_hex", "as quick with one buffer of every size 9..36", ("complete", "open"), sample_every=7),
         ]),
     timeout=dict(quick=400, thorough=2400),
-    stubs=[],
-    outside="",
+    stubs=["Comm::Read() keeps the callback, the harness dials it; Comm::ReadNow() returns the next segment of the origin's byte stream (at most the size asked for), ENDFILE, COMM_ERROR or "
+           "INPROGRESS as the event says; comm_add/remove_close_handler, commSetConnTimeout/commUnsetConnTimeout, fd_bytes are no-ops, _comm_close is counted; fde::Table is 8 zeroed entries; "
+           "statCounter/IOStats zero-initialised globals",
+           "HttpStateData is created by its real constructor from a FwdState; the state processReplyHeader() leaves is set by the harness: virgin reply = a real HttpReply (status, "
+           "Content-Length or Transfer-Encoding: chunked, Connection header put into its HttpHeader, then the real hdrCacheInit()), flags.chunked + new TeChunkedParser as processReplyHeader() "
+           "does, flags.headers_parsed, inBuf = the body bytes that arrived with the header, payloadSeen = inBuf.length(); flags.request_sent/keepalive symbolic; the first "
+           "processReplyBody() is scheduled as an AsyncCall (adaptOrFinalizeReply() is not performed: no adaptation, header hooks are C11's kernel)",
+           "store.cc not linked: StoreEntry::write() appends to the recorder array and asserts contiguous offsets, isAccepting() = true, bytesWanted() = as much as offered, lock/unlock no-ops; "
+           "StoreEntry and MemObject are zeroed raw memory",
+           "FwdState.cc/pconn.cc not linked: FwdState constructor/destructor defined by the harness (member initialisation only); markStoredReplyAsWhole()/complete()/fail() and "
+           "PconnPool::push() (on a zeroed PconnPool) are recorders, unregister()/handleUnregisteredServerEnd() no-ops; ErrorState: harness-defined constructor; MakeNamedErrorDetail() = nil",
+           "c01_chunk_*: Http::Stream real (no connection), ClientHttpRequest zeroed raw memory with request set (flags.chunkedReply), no Range",
+           "HttpRequest, MasterXaction, Comm::Connection real; MemPools::create() = plain heap; bitcode build only: simple _Prime_rehash_policy (AsyncJob registry); ping_data constructor, "
+           "null_string, StatHist no-ops; SquidConfig Config zero-initialised except read_ahead_gap 16 KB, relaxed_header_parser on; xstrdup engine model", "debugs() disabled"],
+    assumptions=["KNOWN-FINDING candidate excluded by vf_assume: no origin bytes follow the header block of a reply that cannot have a body (204, 304, reply to HEAD) -- such bytes are written "
+                 "to the store as body bytes (writeReplyBody(): truncateVirginBody() returns early when !expectingBody()); replay evidence in the report",
+                 "KNOWN-FINDING candidate excluded by vf_assume: no read goes beyond the end of a response with Content-Length: 0 or chunked framing -- such bytes are dropped and the connection "
+                 "still returns to the idle pool (persistentConnStatus() checks payloadTruncated only for Content-Length > 0)",
+                 "one main-loop iteration = one network event followed by AsyncCallQueue::fire()",
+                 "chunked bodies: segment ends restricted to 1-2 bytes ahead or chunk-structure boundaries (arbitrary segmentation of the framing itself is C24's subject)"],
+    outside="bodies, event counts and chunk counts beyond the bounds; chunk extensions and trailers from the origin (C24); 1xx and HTTP/0.9 replies in the body entries; replies whose header "
+            "block failed to parse; everything listed under gap",
 )
